@@ -12,6 +12,7 @@ import (
 	"fmt"
 	"io"
 	"net"
+	"strings"
 	"sync"
 	"testing"
 	"testing/synctest"
@@ -84,6 +85,16 @@ func c13Test(t *testing.T, race bool) {
 						}
 					}
 				}
+			}
+		}
+	}
+	// forged client Initial packets with a foreign source connection ID, aimed at the server after it answered
+	for _, sc := range []string{"plain", "retry", "longchain"} {
+		for _, cl := range clients {
+			for _, inj := range []string{"c2s-initial-other-scid-close", "c2s-initial-other-scid-garbage"} {
+				cases = append(cases, c13Case{Name: fmt.Sprintf("inject/%s/%s/%s/after", sc, cl, inj), Scenario: sc, Client: cl, Inject: inj, When: "server-answered"})
+				cases = append(cases, c13Case{Name: fmt.Sprintf("inject+loss/%s/%s/%s/after/s2c-o0", sc, cl, inj), Scenario: sc, Client: cl, Inject: inj, When: "server-answered",
+					Sched: simworld.Schedule{Faults: []simworld.Fault{{Dir: wiretap.S2C, Ordinal: 0, Action: simworld.Action{Kind: "drop"}}}}})
 			}
 		}
 	}
@@ -231,9 +242,28 @@ func runC13(l *evlog.Log, c *evlog.Case, cs *c13Case, idx int) {
 						imu.Unlock()
 					}
 				}
+				// forged *client* Initial packets (public keys, another source connection ID) aimed at the server
+				// right after it has answered the genuine Initial
+				if strings.HasPrefix(cs.Inject, "c2s-") && d.Conn != nil && len(d.Packets) > 0 && (d.Packets[0].Kind == wiretap.KindInitial || d.Packets[0].Kind == wiretap.KindHandshake) {
+					imu.Lock()
+					defer imu.Unlock()
+					if injected {
+						return nil
+					}
+					tap := d.Conn
+					ver, odcid := tap.Version, tap.ODCID
+					payload := wiretap.ConnectionCloseFrame(0x2, "forged")
+					if cs.Inject == "c2s-initial-other-scid-garbage" {
+						payload = wiretap.CryptoFrame(0, []byte{1, 0, 0, 9, 0xde, 0xad, 0xbe, 0xef, 1, 2, 3, 4, 5})
+					}
+					pkt := wiretap.InitialPacket(ver, wiretap.C2S, odcid, odcid, []byte{0x66, 0x6f, 0x72, 0x67, 0x65, 0x64}, nil, 9, payload, 1200)
+					injected = true
+					injectedAfterHandshakePkt = true
+					w.Router.Inject(wiretap.C2S, quicworld.ClientAddr, quicworld.ServerAddr, pkt, time.Millisecond)
+				}
 				return nil
 			}
-			if d.Conn == nil {
+			if d.Conn == nil || strings.HasPrefix(cs.Inject, "c2s-") {
 				return nil
 			}
 			imu.Lock()
@@ -562,7 +592,7 @@ func runC13(l *evlog.Log, c *evlog.Case, cs *c13Case, idx int) {
 		// must have no effect.  In every other case the outcome must be "clean failure" or the same agreement
 		// (checked above), which is all the property promises.
 		isInitial := cs.Inject == "initial-close" || cs.Inject == "initial-garbage" || cs.Inject == "initial-other-scid"
-		mustNotMatter := cs.Inject == "retry-badtag" || cs.Inject == "retry-wrong-odcid" || (cs.When == "after" && (!isInitial || afterHS)) || cs.When == "after-genuine-vn"
+		mustNotMatter := cs.Inject == "retry-badtag" || cs.Inject == "retry-wrong-odcid" || (cs.When == "after" && (!isInitial || afterHS)) || cs.When == "after-genuine-vn" || cs.When == "server-answered"
 		if mustNotMatter {
 			l.Count("injections_that_must_not_matter", 1)
 		}
